@@ -3,10 +3,19 @@
 # the check of the property it breaks, by generated search alone (OHV_NO_CORPUS=1), quick tier.
 # Applies each patch to /repo, runs the check, undoes the patch. Not part of the registered commands.
 # usage: tools/selftest.sh [ident...]      (default: all)
-cd /verif
-export OHV_EVIDENCE_DIR=/verif/harness/target/evidence-scratch
-git -C /repo diff --quiet || { echo "/repo has local changes"; exit 2; }
-trap 'git -C /repo checkout -- .' EXIT
+cd "$(dirname "$0")/.."
+VERIF=$(pwd)
+REPO=/repo
+# in a `vp run --with-repo` snapshot: patch and build against the snapshot of the repository, so the
+# self-test can run in the background without touching /repo
+if [ -n "${VP_RUN_REPO:-}" ] && [ "$VERIF" != /verif ]; then
+  REPO=$VP_RUN_REPO
+  sed -i "s#path = \"/repo\"#path = \"$REPO\"#" harness/Cargo.toml
+  echo "selftest patches and builds against $REPO"
+fi
+export OHV_EVIDENCE_DIR=$VERIF/harness/target/evidence-scratch
+git -C $REPO diff --quiet || { echo "$REPO has local changes"; exit 2; }
+trap 'git -C $REPO checkout -- .' EXIT
 declare -A OWNER=( [revert-D1]="C15 C16 C17 C18" [revert-D2]="C17" [revert-D3]="C09" [revert-D4]="C08" [revert-D5]="C19" )
 list=()
 if [ $# -gt 0 ]; then list=("$@"); else
@@ -18,14 +27,14 @@ for id in "${list[@]}"; do
   if [ -f mutants/$id.patch ]; then patch=mutants/$id.patch; checks=${OWNER[$id]:-$(cat mutants/$id.owner 2>/dev/null)}
   else patch=seeded/$id/patch.diff; checks=$(python3 -c "import json;print(json.load(open('seeded/$id/meta.json'))['property'])"); fi
   [ -z "$checks" ] && { echo "?? $id: no owning check recorded"; continue; }
-  git -C /repo apply /verif/$patch || { echo "?? $id: patch does not apply"; continue; }
+  git -C $REPO apply $VERIF/$patch || { echo "?? $id: patch does not apply"; continue; }
   for c in $checks; do
     total=$((total+1))
     out=$(OHV_NO_CORPUS=1 ./check $c --tier ${TIER:-quick} 2>&1); rc=$?
     sub=$(echo "$out" | grep -m1 '^sub_check' | cut -c1-80)
     if [ $rc -eq 1 ]; then echo "ok   $id -> $c ($sub)"; else echo "MISS $id -> $c exit=$rc"; miss=$((miss+1)); fi
   done
-  git -C /repo checkout -- .
+  git -C $REPO checkout -- .
 done
 echo "selftest: $total runs, $miss missed"
 [ $miss -eq 0 ]
